@@ -302,9 +302,9 @@ V("C02", "xtc-read_as_traj-drops-atom_indices", "mdtraj/formats/xtc/xtc.pyx", " 
   "        xyz, time, step, box = self.read(n_frames=n_frames, stride=stride)", "C02-R1", "XTCTrajectoryFile.read_as_traj")
 V("C02", "gro-read_as_traj-drops-n_frames-again", "mdtraj/formats/gro.py", "            n_frames=n_frames,\n            stride=stride,\n            atom_indices=atom_indices,\n        )\n        if len(coordinates) == 0:",
   "            stride=stride,\n            atom_indices=atom_indices,\n        )\n        if len(coordinates) == 0:", "C02-R1", "GroTrajectoryFile.read_as_traj")
-V("C02", "nc-window-not-scaled", "mdtraj/formats/netcdf.py", "        elif stride is not None:\n            # 'n_frames' frames should be read in total\n            n_frames *= stride\n", "", "C02-R2", "NetCDFTrajectoryFile.read")
+V("C02", "nc-window-not-scaled", "mdtraj/formats/netcdf.py", "        elif stride is not None:\n            # 'n_frames' frames should be read in total\n            n_frames *= stride\n", "", "C02-R8", "NetCDFTrajectoryFile.read")
 V("C02", "h5-window-not-scaled-again", "mdtraj/formats/hdf5.py", "            # n_frames counts the frames returned, so stride times as many are consumed\n            n_frames *= stride\n\n        total_n_frames = len(self._handle.root.coordinates)",
-  "\n        total_n_frames = len(self._handle.root.coordinates)", "C02-R2", "HDF5TrajectoryFile.read")
+  "\n        total_n_frames = len(self._handle.root.coordinates)", "C02-R8", "HDF5TrajectoryFile.read")
 V("C02", "mdcrd-skip-loop-off-by-one", "mdtraj/formats/mdcrd.py", "            for j in range(stride - 1):\n                # throw away these frames\n                try:\n                    self._read()",
   "            for j in range(stride):\n                # throw away these frames\n                try:\n                    self._read()", "C02-R8", "MDCRDTrajectoryFile.read")
 V("C02", "h5-cursor-advances-by-returned", "mdtraj/formats/hdf5.py", "        self._frame_index += frame_slice.stop - frame_slice.start", "        self._frame_index += len(frames.coordinates)",
@@ -371,6 +371,13 @@ V("C17", "twin-volume-closed-form", _TRJ10, "            return np.array(list(ma
 V("C17", "volume-closed-form-wrong-sign", _TRJ10, "            return np.array(list(map(np.linalg.det, self.unitcell_vectors)), dtype=np.float64)", "            cosines = np.cos(np.deg2rad(self.unitcell_angles))\n            gram = 1.0 - np.sum(cosines**2, axis=1) - 2.0 * np.prod(cosines, axis=1)\n            return np.asarray(np.prod(self.unitcell_lengths, axis=1) * np.sqrt(gram), dtype=np.float64)", "C17-R5", "Trajectory.unitcell_volumes.getter")
 V("C01", "save_netcdf-cell-not-converted", _TRJ10, "                cell_lengths=in_units_of(\n                    self.unitcell_lengths,\n                    Trajectory._distance_unit,\n                    f.distance_unit,\n                ),\n                cell_angles=self.unitcell_angles,\n            )\n\n    def save_netcdfrst", "                cell_lengths=self.unitcell_lengths,\n                cell_angles=self.unitcell_angles,\n            )\n\n    def save_netcdfrst", "C01-R9")
 V("C01", "save_pdb-second-frame-first-coordinates", _TRJ10, "                if self._have_unitcell:\n                    f.write(\n                        in_units_of(\n                            self._xyz[i],", "                if self._have_unitcell:\n                    f.write(\n                        in_units_of(\n                            self._xyz[0],", "C01-R9")
+# Cython classes on model files (xdrmodel / dcdmodel)
+V("C19", "xtc-write-first-box-for-all", "mdtraj/formats/xtc/xtc.pyx", "time[i], <xdrlib.matrix>&box[i, 0, 0], <xdrlib.rvec*>&xyz[i, 0, 0], prec[i])", "time[i], <xdrlib.matrix>&box[0, 0, 0], <xdrlib.rvec*>&xyz[i, 0, 0], prec[i])", "C19-R8", "XTCTrajectoryFile.write")
+V("C19", "xtc-write-counter-by-one", "mdtraj/formats/xtc/xtc.pyx", "        self.frame_counter += n_frames\n        return status", "        self.frame_counter += 1\n        return status", "C19-R8", "XTCTrajectoryFile.write")
+V("C19", "trr-write-first-time-for-all", "mdtraj/formats/xtc/trr.pyx", "            status = trrlib.write_trr(self.fh, n_atoms, step[i], time[i],", "            status = trrlib.write_trr(self.fh, n_atoms, step[i], time[0],", "C19-R8", "TRRTrajectoryFile.write")
+V("C19", "dcd-write-first-cell-length", "mdtraj/formats/dcd/dcd.pyx", "                self.timestep.A = cell_lengths[i, 0]", "                self.timestep.A = cell_lengths[0, 0]", "C19-R8", "DCDTrajectoryFile.write")
+V("C02", "dcd-read-skips-stride-frames", "mdtraj/formats/dcd/dcd.pyx", "            for j in range(_stride - 1):", "            for j in range(_stride):", "C02-R8", "DCDTrajectoryFile.read")
+V("C02", "twin-dcd-read-skip-count-local", "mdtraj/formats/dcd/dcd.pyx", "            for j in range(_stride - 1):", "            n_skip = _stride - 1\n            for j in range(n_skip):", None)
 V("C02", "twin-time-commuted", "mdtraj/formats/xyzfile.py", "        time = (stride * np.arange(len(xyz))) + initial", "        time = initial + (np.arange(len(xyz)) * stride)", None)
 V("C02", "twin-positional-args", "mdtraj/formats/netcdf.py", """        xyz, time, cell_lengths, cell_angles = self.read(
             n_frames=n_frames,
